@@ -1,4 +1,10 @@
+#[path = "../../h_zvariant/src/bridge.rs"]
+#[allow(unexpected_cfgs)]
+mod bridge;
+mod c_frame;
+mod c_msg;
 mod c_names;
+mod sched;
 
 use vcore::harness::*;
 use vcore::run::Run;
@@ -6,6 +12,7 @@ use vcore::run::Run;
 fn main() {
     let args = parse_args("h_zbus");
     let id = args.id.as_str();
+    let _ = bridge::fd_table();
     let mut run = Run::new(id, &args.tier);
     let specs: Vec<Spec> = match id {
         "C10" => {
@@ -14,6 +21,22 @@ fn main() {
             run.assumptions.push("org.freedesktop.DBus is accepted as a unique name (documented zbus behaviour: the bus driver's sender)".into());
             run.assumptions.push("PropertyName: any string of 1..=255 bytes, as its documentation states (the specification defines no grammar)".into());
             vec![custom("names", c_names::c10_one)]
+        }
+        "C11" => {
+            run.rule = "messages built through the zbus builder: type x optional header fields with generated valid names x all flag combinations allowed for the type x endian x explicit/implicit serial x generated body (0..4 arguments incl. fds); oracle: header/body accessors and Message::from_bytes of its bytes return what was put in, and an independent strict message parser accepts the bytes (12-byte header, a(yv) fields with the spec's types and grammars, zero padding, 8-aligned body, declared body length and fd count) and reads the same fields, signature and body; non-trivial = at least 3 header fields and a non-empty body; distinct by hash(bytes)".into();
+            vec![spec("build", 200_000, 5_000_000, 200, c_msg::c11_case)]
+        }
+        "C12" => {
+            run.rule = "valid reference-built messages with 16 kinds of role-aware mutations (empty, truncations incl. around the body offset, field codes, field variant types and texts, lengths, endian byte, primary header bytes, zero serial, padding, signature lengths, pokes, insert/delete) and random bytes, presented to Message::from_bytes under either context endianness; every accepted message has all accessors, body(), body deserialisation, Display and Debug exercised; oracle: no panic; non-trivial = more than 16 bytes; distinct by hash(bytes)".into();
+            vec![spec("hostile", 300_000, 10_000_000, 220, c_msg::c12_case)]
+        }
+        "C13" => {
+            run.rule = "valid reference-built messages carrying an unknown header field code (10..255, any variant value, any position), an unknown flag bit (0x08..0x80) or both; oracle: Message::from_bytes accepts them and the known fields and flags are intact; non-trivial = every case (the message is valid per the reference parser apart from the unknown part); distinct by hash(bytes)".into();
+            vec![spec("msg", 100_000, 3_000_000, 200, c_msg::c13_msg_case), spec("stream", 60_000, 2_000_000, 400, c_frame::c13_stream_case)]
+        }
+        "C14" => {
+            run.rule = "1..5 valid reference-built messages (some carrying fds) concatenated into a stream, delivered to ReadHalf::receive_message through a scripted socket with generated chunking (single chunk, 1-byte drip, message boundaries, random cuts incl. inside a header; an fd-carrying message start is always a chunk start as on a real unix socket) and a generated handshake-leftover prefix (bytes and fds already read); oracle: the same messages, byte-identical, in order, each with its own fds (by inode), strictly increasing receive positions, then end-of-stream; plus headers announcing more than 128 MiB must fail without a body-sized read; non-trivial = at least 2 messages and a cut inside a message or an fd-carrying message; distinct by hash(stream, prefix, chunking)".into();
+            vec![spec("frame", 100_000, 3_000_000, 600, c_frame::c14_case), spec("oversized", 5_000, 100_000, 200, c_frame::c14_big_case)]
         }
         _ => {
             eprintln!("unknown property {id} for h_zbus");
